@@ -137,7 +137,22 @@ Plant(r) ==
        IF i = 0 THEN [r EXCEPT !.inp = <<Ipa(PLANT)>> \o r.inp, !.out = IF r.out[1].k \in {"empty", "met"} THEN r.out ELSE <<Ipa(Ascii.a)>> \o r.out]
        ELSE [r EXCEPT !.inp[i] = Ipa(PLANT),
                       !.out = IF i <= Len(r.out) /\ r.out[i].k = "set" THEN [r.out EXCEPT ![i] = Ipa(Ascii.a)] ELSE r.out]
-GenPlanted(seed) == Plant(GenAny(seed))
+\* a second way of planting: the absent literal is APPENDED to the input (so it follows whatever the rule's own last element is:
+\* a variable reference, an ellipsis, a boundary, a syllable ...); substitutions get a matching extra output
+PlantAtEnd(r) ==
+  IF r.inp[1].k = "empty" THEN Plant(r)
+  ELSE [r EXCEPT !.inp = Append(r.inp, Ipa(PLANT)),
+                 !.out = IF r.out[1].k \in {"empty", "met"} THEN r.out ELSE Append(r.out, Ipa(Ascii.a))]
+\* inputs that capture and re-use a variable: X=1 Y 1 (the reference must repeat the captured segment)
+GenVarInput(seed, p) ==
+  LET x == Bind(IF Chance(seed, C(p, 1), 1, 2) THEN Grp(1) ELSE Mx(GenSegMods(seed, C(p, 2))), 1)
+      mid == IF Chance(seed, C(p, 3), 1, 2) THEN <<GenSeg(seed, C(p, 4))>> ELSE <<>>
+      inp == <<x>> \o mid \o <<VarRef(1)>>
+  IN Rule(inp, IF Chance(seed, C(p, 5), 1, 3) THEN <<Empty>> ELSE [i \in 1..Len(inp) |-> IF i = 1 THEN VarRef(1) ELSE GenOutSeg(seed, C(C(p, 6), i))], GenEnvs(seed, C(p, 7), TRUE), <<>>)
+GenPlanted(seed) == LET c == Pick(seed, 900, 4) IN
+                    IF c = 1 THEN PlantAtEnd(GenVarInput(seed, 901))
+                    ELSE IF c = 2 THEN PlantAtEnd(GenAny(seed))
+                    ELSE Plant(GenAny(seed))
 
 (* C14: rules classified by what their output may touch, with arbitrary environments and exceptions *)
 PlainFeatMx(seed, p) == Mx(GenSegMods(seed, p))
